@@ -1,6 +1,195 @@
-"""Vector-field part of C01 (AVX2 FieldElement2625x4, IFMA F51x4*)."""
-REQUIRED = []
+"""Vector-field part of C01 (AVX2 FieldElement2625x4, IFMA F51x4*): lane model checker."""
+from .. import core, ref, vals, vecmodel as vm
+from ..core import hx, lst
+from ..ref import P, to32
+
+REQUIRED = ['vec:avx2:mul', 'vec:avx2:square', 'vec:avx2:reduce', 'vec:avx2:negate_lazy', 'vec:avx2:neg', 'vec:avx2:diff_sum',
+            'vec:avx2:shuffle', 'vec:avx2:blend', 'vec:avx2:mul_consts', 'vec:avx2:new', 'vec:avx2:atbound']
+REQUIRED_IFMA = ['vec:ifma:mul', 'vec:ifma:square', 'vec:ifma:reduce', 'vec:ifma:negate_lazy', 'vec:ifma:neg', 'vec:ifma:diff_sum',
+                 'vec:ifma:shuffle', 'vec:ifma:blend', 'vec:ifma:mul_consts', 'vec:ifma:new', 'vec:ifma:atbound']
+
+
+class VGen:
+    def __init__(self, ctx, model):
+        self.ctx = ctx
+        self.rng = ctx.rng
+        self.m = model
+        self.pfx = 'vec.' + model.name
+        self.lay = vals.limb_layout(model.bits32)
+
+    def limit_fn(self, kind):
+        m = self.m
+        if m.name == 'avx2':
+            if kind == 'neg16p':
+                # what `neg` really supports: limbs up to the limbs of 16p (see known finding C01/avx2-neg-doc-bound)
+                return lambda i, w: (((1 << 26) - 19) * 16 if i == 0 else ((1 << w) - 1) * 16) + 1
+            e, o = m.bound(kind)
+            return lambda i, w: e if w == 26 else o
+        if kind == 'R':
+            return lambda i, w: m.RED0 if i == 0 else m.RED
+        if kind == 'N':
+            return lambda i, w: (36028797018963664 if i == 0 else 36028797018963952) + 1
+        if kind == 'U':
+            return lambda i, w: 1 << 64
+        if kind == 'U2':
+            return lambda i, w: 1 << 63
+        raise KeyError(kind)
+
+    def operand(self, kind, mode=None):
+        """raw vector whose four lanes are drawn from different limb patterns, all within `kind`"""
+        lim = self.limit_fn(kind)
+        lanes = []
+        modes = []
+        for _ in range(4):
+            md, l = vals.loose_limbs(self.rng, self.m.bits32, lim, mode)
+            lanes.append(l)
+            modes.append(md)
+        raw = self.m.pack(lanes)
+        return raw, modes
+
+    def check(self, op, exp_vals, post=None):
+        m = self.m
+
+        def f(toks):
+            raw = vm.parse(toks[0])
+            if len(raw) != m.n:
+                return 'lane count'
+            got = vm.lane_values(m, raw)
+            for i in range(4):
+                if got[i] != exp_vals[i]:
+                    return 'lane %s: value differs from the integer result mod p' % 'ABCD'[i]
+            if post is not None:
+                lim = post
+                for ln in m.lanes(raw):
+                    for i, (l, w) in enumerate(zip(ln, self.lay)):
+                        if l >= lim(i, w):
+                            return 'limb %#x exceeds the documented post-condition of %s' % (l, op)
+            return None
+        return f
+
+    def post_fn(self, op):
+        m = self.m
+        if m.name == 'avx2':
+            b = m.POST.get(op)
+            if b is None:
+                return None
+            e, o = m.bound(b)
+            return lambda i, w: (e if w == 26 else o) + 1
+        if op == 'reduce' or op == 'neg':
+            return self.limit_fn('R')
+        return None
+
+    def run(self, n):
+        ctx, rng, m = self.ctx, self.rng, self.m
+        name = m.name
+        shuffles = vm.SHUFFLES
+        lanesets = vm.LANES_AVX2 if name == 'avx2' else vm.LANES_IFMA
+        # new / split round trip from serial field elements (u64 serial type in these builds)
+        for _ in range(max(4, n // 8)):
+            fes, vs = [], []
+            for _k in range(4):
+                c, v = vals.field_value(rng)
+                if rng.random() < 0.5:
+                    fes.append(to32(v).hex())
+                    vs.append((v & vals.M255) % P)
+                else:
+                    md, limbs = vals.loose_limbs(rng, False, lambda i, w: 1 << 54 if name == 'avx2' else (1 << 52))
+                    # FieldElement2625x4::new splits 51-bit limbs at bit 26: the serial operand must fit 2^(26+26)=2^52? it
+                    # takes x >> 26 as u32, so limbs must be < 2^58; reduced serial elements (< 2^52) are what callers pass
+                    md, limbs = vals.loose_limbs(rng, False, lambda i, w: 1 << 52)
+                    fes.append(vals.limbs_tok(limbs))
+                    vs.append(vals.limbs_value(limbs, False) % P)
+            r = ctx.add(self.pfx + '.new', *fes, expect=self.check('new', vs, self.post_fn('new')), cls='vec:%s:new' % name, info='repr')
+            ctx.add(self.pfx + '.split', ctx.ref(r, 0),
+                    expect=lambda t, vs=vs: None if [t[0], t[2], t[4], t[6]] == [to32(v).hex() for v in vs] else 'split: %r' % (t,),
+                    cls='vec:%s:new' % name, info='repr')
+        ops1 = ['square', 'reduce', 'negate_lazy', 'neg', 'diff_sum']
+        for _ in range(n):
+            # directed: all lanes at the documented bound, and mixed patterns
+            for mode in ('max', None):
+                pre = m.PRE['mul']
+                a, ma = self.operand(pre[0], mode)
+                b, mb = self.operand(pre[1], mode)
+                av, bv = vm.lane_values(m, a), vm.lane_values(m, b)
+                cl = ['vec:%s:mul' % name] + (['vec:%s:atbound' % name] if mode == 'max' else [])
+                ctx.add(self.pfx + '.op', 'mul', vm.tok(a), vm.tok(b), expect=self.check('mul', vm.op_model(m, 'mul', av, bv), self.post_fn('mul')),
+                        cls=cl, info='repr')
+                for op in ops1:
+                    kind = m.PRE[op][0]
+                    if op == 'neg' and name == 'avx2':
+                        kind = 'neg16p'
+                    x, mx = self.operand(kind, mode)
+                    xv = vm.lane_values(m, x)
+                    cl = ['vec:%s:%s' % (name, op)] + (['vec:%s:atbound' % name] if mode == 'max' else [])
+                    ctx.add(self.pfx + '.op', op, vm.tok(x), expect=self.check(op, vm.op_model(m, op, xv), self.post_fn(op)), cls=cl, info='repr')
+                x, _ = self.operand(m.PRE['mul_consts'][0], mode)
+                xv = vm.lane_values(m, x)
+                cs = rng.choice([(121666, 121666, 2 * 121666, 2 * 121665), (121666, 121666, 243332, 243330),
+                                 tuple(rng.randrange(1 << 20) for _ in range(4)), (1, 0, 1, 2), (0xfffff, 0xfffff, 0xfffff, 0xfffff)])
+                ctx.add(self.pfx + '.op', 'mul_consts', vm.tok(x), lst(['%d' % c for c in cs]),
+                        expect=self.check('mul_consts', vm.op_model(m, 'mul_consts', xv, ctl=cs), self.post_fn('mul_consts')),
+                        cls='vec:%s:mul_consts' % name, info='repr')
+            # structural ops on arbitrary lanes
+            a, _ = self.operand(m.PRE['shuffle'][0])
+            b, _ = self.operand(m.PRE['blend'][1])
+            av, bv = vm.lane_values(m, a), vm.lane_values(m, b)
+            for s in rng.sample(shuffles, 3):
+                ctx.add(self.pfx + '.op', 'shuffle', vm.tok(a), s,
+                        expect=lambda t, a=a, s=s: None if m.lanes(vm.parse(t[0])) == vm.shuffle_model(m.lanes(a), s) else 'shuffle %s moved the wrong lanes' % s,
+                        cls='vec:%s:shuffle' % name, info='repr')
+            for ls in rng.sample(lanesets, 3):
+                ctx.add(self.pfx + '.op', 'blend', vm.tok(a), vm.tok(b), ls,
+                        expect=lambda t, a=a, b=b, ls=ls: None if m.lanes(vm.parse(t[0])) == vm.blend_model(m.lanes(a), m.lanes(b), ls) else 'blend %s took the wrong lanes' % ls,
+                        cls='vec:%s:blend' % name, info='repr')
+            a2, _ = self.operand(m.PRE['add'][0])
+            b2, _ = self.operand(m.PRE['add'][1])
+            ctx.add(self.pfx + '.op', 'add', vm.tok(a2), vm.tok(b2),
+                    expect=self.check('add', vm.op_model(m, 'add', vm.lane_values(m, a2), vm.lane_values(m, b2))), cls='vec:%s:add' % name, info='repr')
+            ra, _ = self.operand(m.PRE['csel'][0])
+            rb, _ = self.operand(m.PRE['csel'][1])
+            for ch in ('T', 'F'):
+                ctx.add(self.pfx + '.op', 'csel', vm.tok(ra), vm.tok(rb), ch,
+                        expect=lambda t, ra=ra, rb=rb, ch=ch: None if vm.parse(t[0]) == (rb if ch == 'T' else ra) else 'conditional_select',
+                        cls='vec:%s:csel' % name, info='repr')
+        if name == 'avx2':
+            # the documented precondition of `neg` (b < 4.0) taken literally: one fixed directed request.
+            # Known finding (see known_findings.json): 16p - x underflows for limbs in (16p_i, 2^(w+4)).
+            e, o = m.bound(4.0)
+            x = m.pack([[(e - 1) if w == 26 else (o - 1) for w in self.lay] for _ in range(4)])
+            ctx.add(self.pfx + '.op', 'neg', vm.tok(x), expect=self.check('neg', vm.op_model(m, 'neg', vm.lane_values(m, x))),
+                    cls='vec:avx2:neg-doc-bound', info='repr')
+        # short chains: reduce o mul o diff_sum ... as the point formulas use them
+        for _ in range(max(2, n // 4)):
+            ctx.block()
+            x, _ = self.operand(m.PRE['diff_sum'][0] if name == 'avx2' else 'R')
+            xv = vm.lane_values(m, x)
+            r1 = ctx.add(self.pfx + '.op', 'diff_sum', vm.tok(x), expect=self.check('diff_sum', vm.op_model(m, 'diff_sum', xv)), cls='vec:%s:chain' % name, info='repr')
+            v1 = vm.op_model(m, 'diff_sum', xv)
+            y, _ = self.operand(m.PRE['mul'][1])
+            yv = vm.lane_values(m, y)
+            if name == 'ifma':
+                r1 = ctx.add(self.pfx + '.op', 'reduce', ctx.ref(r1, 0), expect=self.check('reduce', v1), cls='vec:%s:chain' % name, info='repr')
+            r2 = ctx.add(self.pfx + '.op', 'mul', ctx.ref(r1, 0), vm.tok(y), expect=self.check('mul', [a * b % P for a, b in zip(v1, yv)]),
+                         cls='vec:%s:chain' % name, info='repr')
+        ctx.block()
+
+
+def task(prop, seed, size, cfgbins, which='avx2'):
+    ctx = core.Ctx(seed, prefix='w%d_' % (seed % 100000))
+    VGen(ctx, vm.Avx2 if which == 'avx2' else vm.Ifma).run(size)
+    return core.run_and_judge(prop, ctx, cfgbins, compare=False)
 
 
 def tasks(prop, tier, seed, bins):
-    return []
+    out = []
+    size = 40 if tier == 'quick' else 1500
+    nt = 2 if tier == 'quick' else 8
+    for label, path in bins:
+        be = label.split('-')[0]
+        if be in ('simd', 'avx512'):
+            for i in range(nt):
+                out.append(('vlib.props.c01v', 'task', prop, seed * 1000 + 700 + i, size, [(label, path, None)], {'which': 'avx2'}))
+        if be == 'avx512':
+            for i in range(nt):
+                out.append(('vlib.props.c01v', 'task', prop, seed * 1000 + 800 + i, size, [(label, path, None)], {'which': 'ifma'}))
+    return out
